@@ -10,6 +10,8 @@
 
 mod chain;
 mod contracts;
+#[cfg(feature = "fidelity")]
+mod fidelity;
 mod gen;
 mod monitor;
 mod msgs;
@@ -258,6 +260,8 @@ fn main() {
         Some("hashes") => cmd_hashes(&args),
         Some("trace") => cmd_trace(&args),
         Some("survey") => cmd_survey(&args),
+        #[cfg(feature = "fidelity")]
+        Some("fidelity") => fidelity::run(seed_from_env(), args.get(2).and_then(|s| s.parse().ok()).unwrap_or(300)),
         _ => {
             eprintln!("usage: fzsim check <Cxx> <quick|thorough> | replay <file> | hashes <Cxx> <runs> | trace <Cxx> <run>");
             2
